@@ -242,6 +242,71 @@ def run_executor(exe, driver, scen, trace, shards=NCPU, timeout_s=60, wall=3000,
     return sc
 
 
+def suite_scenarios(scen):
+    """One scenario per test of the repository's own gtest suite (built with the hooks on): {"bin":..., "test":...}."""
+    bdir = build_lib("tests")
+    tdir = os.path.join(bdir, "tests")
+    n = 0
+    with open(scen, "w") as out:
+        for b in sorted(os.listdir(tdir)):
+            e = os.path.join(tdir, b)
+            if not (b.startswith("test_") and os.path.isfile(e) and os.access(e, os.X_OK)) or b.startswith("test_api_headers"):
+                continue
+            p = sh([e, "--gtest_list_tests"], timeout=120, cwd=tdir)
+            suite = None
+            for line in p.stdout.splitlines():
+                if line and not line.startswith(" ") and line.rstrip().endswith("."):
+                    suite = line.strip()
+                elif suite and line.startswith("  "):
+                    out.write(json.dumps({"bin": b, "test": suite + line.split("#")[0].strip()}, separators=(",", ":")) + "\n")
+                    n += 1
+    if n < 100:
+        raise Broken("the hook-enabled test suite lists only %d tests" % n)
+    return scen
+
+
+def run_suite(scen, trace, timeout_s=600):
+    """Run each listed test of the repository's suite in its own process with the logger hook writing to a file;
+    the trace is, per test, a Reset line followed by the hook's events (labelled with the scenario number, nothing else added)."""
+    tdir = os.path.join(build_lib("tests"), "tests")
+    lines = [l for l in open(scen).read().splitlines() if l.strip()]
+    numbered = []
+    for k, l in enumerate(lines, 1):
+        if '"sc":' not in l[:12]:
+            l = '{"sc":%d,' % k + l[1:]
+        numbered.append(l)
+    wd = trace + ".d"
+    shutil.rmtree(wd, ignore_errors=True)
+    os.makedirs(wd)
+
+    def one(l):
+        s = json.loads(l)
+        base = os.path.join(wd, "t%d" % s["sc"])
+        try:
+            p = subprocess.run([os.path.join(tdir, s["bin"]), "--gtest_filter=" + s["test"]], cwd=tdir, stdout=subprocess.DEVNULL, stderr=subprocess.DEVNULL,
+                               timeout=timeout_s, env=dict(os.environ, LIBCELLML_VERIF_LOGGER_TRACE=base))
+            rc = p.returncode
+        except subprocess.TimeoutExpired:
+            rc = -99
+        evs = []
+        for f in sorted(os.listdir(wd)):
+            if f.startswith("t%d." % s["sc"]):
+                with open(os.path.join(wd, f)) as fh:
+                    evs += [x for x in fh.read().splitlines() if x.startswith("{")]
+        return s["sc"], rc, evs
+    with cf.ThreadPoolExecutor(NCPU) as ex:
+        res = list(ex.map(one, numbered))
+    with open(trace, "w") as out:
+        for sc, rc, evs in res:
+            out.write('{"e":"Reset","sc":%d}\n' % sc)
+            for e in evs:
+                out.write('{"sc":%d,' % sc + e[1:] + "\n")
+    with open(scen + ".numbered", "w") as out:
+        out.write("\n".join(numbered) + "\n")
+    shutil.rmtree(wd, ignore_errors=True)
+    return len(numbered)
+
+
 def split_trace(trace, nshards, max_events=50000):
     """Cut a trace into shards at Reset lines (scenarios never straddle a shard)."""
     total = count_lines(trace)
